@@ -39,7 +39,7 @@ def run_invocation(sc, backend, seed, fault=None, schedule=None, clock0=None):
         sim.line_points = _fine_grained
     if seed % 4 == 1:
         sim.time_jitter = 0.02       # a quarter of the runs: timers may fire while other threads are in the middle of something
-    res = {"events": [], "bodies": 0, "max_bodies": 0}
+    res = {"events": [], "bodies": 0, "max_bodies": 0, "jitter": bool(sim.time_jitter)}
     backend.plan = {}
     if sc.get("resp_page_size"):
         backend.plan["resp_page_size"] = sc["resp_page_size"]
@@ -246,7 +246,16 @@ def run_invocation(sc, backend, seed, fault=None, schedule=None, clock0=None):
                 return ["susp"]
             return ["err"] if isinstance(exc, Exception) else ["fatal"]
 
+        pool_block = {}
+
         def trace_hook(ev):
+            if ev["op"] == "pool.submit" and ev.get("pool") == "pool" and ev.get("pid") not in pool_block:
+                pool_block[ev.get("pid")] = res.get("cur_block")
+            if ev["op"] == "pool.begin" and ev.get("idx") is not None and ev.get("pool") == "pool":
+                # a worker takes a (queued) branch task: by then the block's completion record must not be held yet
+                bn = pool_block.get(ev.get("pid"))
+                if bn is not None and any(o.name == f"p:{bn+1}" and o.type == "CONTEXT" and o.status in TERMINAL for o in backend.ops.values()):
+                    res["events"].append(["late_begin", bn, ev["idx"], sim.clock])
             if ev["op"] == "pool.begin" and ev.get("idx") is not None:
                 pe.append(["begin", us(sim.clock), ev["idx"]])
             elif ev["op"] == "pool.end" and ev.get("idx") is not None and ev.get("pool") == "pool":
@@ -338,6 +347,7 @@ def run_invocation(sc, backend, seed, fault=None, schedule=None, clock0=None):
                                    tolerated_failure_percentage=cfg.get("pct"))
             outs = []
             for n, blk in enumerate(sc["blocks"]):
+                res["cur_block"] = n
                 if blk["kind"] == "map":
                     items = list(range(len(blk["branches"])))
 
@@ -429,7 +439,7 @@ def run_execution(sc, seed, max_inv=12, fault=None):
                "ids": [(u["name"], u["id"], u["parent"]) for t, us, o in backend.calls for u in us],
                "enabled_after": [(kind, backend.ops[i].name) for kind, i in backend.enabled_events()],
                "rejections": list(backend.rejections), "fault_fired": res.get("fault_fired", False) or backend.page_fetch_failed,
-               "pevents": res.get("pevents", [])}
+               "pevents": res.get("pevents", []), "jitter": res.get("jitter", False)}
         backend.calls = []
         invs.append(inv)
         if inv["status"] != "PENDING":
@@ -521,6 +531,10 @@ def oracles(ctx, prop, ex, component):
             V("C06.invocation_hangs_after_checkpoint_failure", {"inv": k, "hung": inv["hung"]}) if inv["fault_fired"] else None
             continue
         for ev in inv["events"]:
+            if ev[0] == "late_begin":
+                # the completion record of the map/parallel operation is held by the backend, and only afterwards a
+                # worker starts (another run of) one of its branch functions
+                V("C01.branch_function_started_after_completion_recorded", {"inv": k, "block": ev[1], "branch": ev[2], "t": ev[3]})
             if ev[0] == "enter":
                 if len(ev) > 3 and ev[3]:
                     V("C01.user_function_entered_for_recorded_operation", {"inv": k, "step": ev[1], "recorded": ev[3]})
@@ -578,6 +592,29 @@ def oracles(ctx, prop, ex, component):
             mc = blk.get("max_concurrency")
             if mc and inv["max_bodies"] > mc and sum(1 for b in sc["blocks"] if b["kind"] in ("map", "parallel")) == 1:
                 V("C09.concurrency_limit_exceeded", {"inv": k, "max_simultaneous_bodies": inv["max_bodies"], "limit": mc})
+        # a branch parked on a timer is re-submitted when the timer is due (the timer thread looks at least every 0.1 s)
+        # as long as the executor is still waiting for its decision; judged on runs in which the clock advances only
+        # when every thread is blocked, so that the only lateness is the timer thread's own
+        if not inv.get("jitter"):
+            pev = inv.get("pevents") or []
+            t_end = next((e[1] for e in pev if e[0] == "exec.end"), None)
+            # intervals in which the timer thread is busy re-submitting an earlier entry (state refresh = a checkpoint)
+            busy = []
+            for q, e in enumerate(pev):
+                if e[0] == "timer.pop":
+                    fin = next((f for f in pev[q + 1:] if (f[0] == "submit" and f[2] == "thread") or f[0] in ("refresh.fail", "timer.pop", "exec.end")), None)
+                    busy.append((e[1], fin[1] if fin is not None else e[1]))
+            for q, e in enumerate(pev):
+                if e[0] == "finish" and len(e) > 4 and e[3] == "suspUntil":
+                    due = max(e[4], e[1])
+                    nxt = next((f for f in pev[q + 1:] if f[0] in ("reset", "timer.pop", "cancel") and f[2] == e[2]), None)
+                    seen_at = nxt[1] if nxt is not None else t_end
+                    if seen_at is None:
+                        continue
+                    idle = (seen_at - due) - sum(max(0, min(b, seen_at) - max(a, due)) for a, b in busy)
+                    if idle > 100_000 + 1000:
+                        V("C09.timed_branch_not_resumed_when_due", {"inv": k, "branch": e[2], "due_us": due, "looked_at_us": seen_at,
+                                                                      "timer_thread_idle_us": idle, "executor_end_us": t_end})
         # C10: nothing from descendants after the context's completion record was handed over
         done_at = {}
         for i, ev in enumerate(inv["events"]):
@@ -674,7 +711,7 @@ def gen_branch(rng, allow_block=True):
             continue
         r = rng.random()
         if r < 0.55:
-            out = {"ok": rng.choice(["i5", "s", "t", "z", "None"])} if rng.random() < 0.7 else {"err": {"cls": "Boom", "msg": rng.choice(["bad", "bad", ""])}}
+            out = {"ok": rng.choice(["i5", "s", "t", "z", "None"])} if rng.random() < 0.7 else {"err": {"cls": "Boom", "msg": rng.choice(["bad", "bad", "", "r\u00e9sum\u00e9-\u65e5\u672c", "report-\udcff.csv"])}}
             acts.append({"a": "step", "out": out, "yield": rng.choice([1, 1, 3, 8])})
             if rng.random() < 0.25:
                 acts[-1]["sleep"] = rng.choice([1, 2, 4])
@@ -685,7 +722,7 @@ def gen_branch(rng, allow_block=True):
         elif r < 0.86:
             acts.append({"a": "yield", "n": rng.choice([1, 5])})
         elif r < 0.92:
-            acts.append({"a": "raise", "cls": "Boom", "msg": rng.choice(["raised", ""])})
+            acts.append({"a": "raise", "cls": "Boom", "msg": rng.choice(["raised", "", "report-\udcff.csv"])})
             break
         elif allow_block and r < 0.96:
             acts.append({"a": "block"})
@@ -731,6 +768,57 @@ def gen_late_begin(rng):
                        {"kind": "seq", "actions": [{"a": "step", "out": {"ok": "s"}}]}], "completion": comp}
 
 
+def gen_queued_resubmit(rng):
+    """Fewer workers than branches, an early decision, and timer-suspended branches whose re-submissions are still
+    queued when a running sibling decides the batch; later top-level work keeps the invocation alive."""
+    w = rng.choice([1, 1, 2])
+    nb_wait = rng.choice([2, 2, 3])
+    branches = []
+    for i in range(nb_wait):
+        b = [{"a": "wait", "secs": 1}]
+        if rng.random() < 0.7:
+            b.append({"a": "sleep", "secs": rng.choice([1, 2])})
+        b.append({"a": "step", "out": {"ok": rng.choice(["i5", "s"])}, "yield": 1})
+        branches.append(b)
+    branches.append([{"a": "step", "out": {"ok": "t"}, "yield": 1, "sleep": rng.choice([2, 3])}])
+    if rng.random() < 0.3:
+        rng.shuffle(branches)
+    return {"blocks": [{"kind": rng.choice(["map", "parallel"]), "branches": branches, "max_concurrency": w},
+                       {"kind": "seq", "actions": [{"a": "step", "out": {"ok": "s"}, "sleep": rng.choice([2, 4])}]}],
+            "completion": rng.choice([{"min": 1}, {"min": 1}, {"min": 2}])}
+
+
+def gen_timer_order(rng):
+    """Timers scheduled out of due order: one branch parks for long, another parks later for a short time, a third keeps
+    the batch running; the later, shorter timer has to fire when due."""
+    long_ = rng.choice([20, 30, 60])
+    a = [{"a": "wait", "secs": long_}]
+    b = [{"a": "step", "out": {"ok": "i5"}, "yield": 1, "sleep": rng.choice([1, 2])}, {"a": "wait", "secs": rng.choice([1, 2])},
+         {"a": "step", "out": {"ok": "s"}, "yield": 1}]
+    c = [{"a": "step", "out": {"ok": "t"}, "yield": 1, "sleep": rng.choice([6, 8, 12])}]
+    branches = [a, b, c] + ([[{"a": "step", "out": {"ok": "z"}, "yield": 1}]] if rng.random() < 0.3 else [])
+    if rng.random() < 0.5:
+        rng.shuffle(branches)
+    return {"blocks": [{"kind": rng.choice(["map", "parallel"]), "branches": branches, "max_concurrency": None}],
+            "completion": rng.choice([{}, {"min": 2}, {"min": 1}])}
+
+
+def gen_replay_orphan(rng):
+    """A later invocation in which the batch is decided early while the state is still replaying: a branch holding
+    recorded operations is still queued (fewer workers than branches) when a sibling decides the batch, and a third
+    branch, past its own recorded operations, then starts new ones."""
+    x = [{"a": "wait", "secs": 1}, rng.choice([{"a": "yield", "n": rng.choice([3, 8])}, {"a": "sleep", "secs": 1}]),
+         {"a": "step", "out": {"ok": "i5"}, "yield": 1}, {"a": "step", "out": {"ok": "s"}, "yield": 1}]
+    y = [{"a": "wait", "secs": 1}, {"a": "step", "out": {"ok": "t"}, "yield": rng.choice([1, 3])}]
+    z = [{"a": "step", "out": {"ok": "z"}, "yield": 1}, {"a": "wait", "secs": rng.choice([1, 3])}, {"a": "step", "out": {"ok": "s"}, "yield": 1}]
+    branches = [x, y, z] if rng.random() < 0.7 else [y, x, z]
+    sc = {"blocks": [{"kind": rng.choice(["map", "parallel"]), "branches": branches, "max_concurrency": 2}],
+          "completion": {"min": 1}}
+    if rng.random() < 0.8:
+        sc["blocks"].append({"kind": "seq", "actions": [{"a": "step", "out": {"ok": "s"}, "sleep": 2}]})
+    return sc
+
+
 def gen_large_early(rng):
     """Early decision with branches still unstarted or running, a result over the (patched) checkpoint limit, and a later
     suspension: the batch is rebuilt from its children on replay."""
@@ -765,6 +853,12 @@ def gen_scenario(rng, zero_p=0.05):
     x = rng.random()
     if x > 0.9:
         return gen_resubmit_rich(rng)
+    if x > 0.82:
+        return gen_queued_resubmit(rng)
+    if x > 0.76:
+        return gen_timer_order(rng)
+    if x > 0.70:
+        return gen_replay_orphan(rng)
     if x < 0.15:
         return gen_timer_race(rng)
     if x < 0.30:
@@ -961,6 +1055,12 @@ def derive_par_actions(pevents):
         elif e[0] == "flags":
             acts.append(["wake"])
             woke = True
+            fin = next((f for f in evs[i + 1:] if f[0] == "exec.end"), None)
+            if fin is not None and fin[2] != "result":
+                # the executor raises (fatal / suspend): the model's run ends with `wake`, which includes the pool
+                # shutdown's cancellation of the tasks still queued (logged later, one by one, by the real code)
+                end = fin
+                break
         elif e[0] == "exec.end":
             if not woke:
                 acts.append(["wake"])
